@@ -111,6 +111,7 @@ SITES = {
     "C02": [("src/exo/backend/LoopIR_compiler.py", "simplify_cir", {"e.op"})],
     "C08": [("src/exo/backend/LoopIR_compiler.py", "simplify_cir", {"e.op"})],
     "C14": [("src/exo/backend/LoopIR_compiler.py", "simplify_cir", {"e.op"})],  # operand offsets of instructions
+    "C19": [("src/exo/backend/LoopIR_compiler.py", "simplify_cir", {"e.op"})],  # partial_eval substitutes literals: `0 - i` etc. reach the C index simplifier
     "C12": [("src/exo/rewrite/LoopIR_scheduling.py", "DoSimplify.map_binop", {"e.op"})],
 }
 
@@ -138,7 +139,7 @@ def rule_algid(ctx, prop: str) -> RuleResult:
     # constant folding uses the floor-semantics operators
     from .. import pat
 
-    if prop in ("C02", "C08", "C14", "C15"):
+    if prop in ("C02", "C08", "C14", "C15", "C19"):
         m = ix.module("src/exo/backend/LoopIR_compiler.py")
         tbl = m.assigns.get("operations")
         if not isinstance(tbl, ast.Dict):
@@ -179,6 +180,50 @@ def rule_algid(ctx, prop: str) -> RuleResult:
                                 f"becomes [0, ..], the compiler 'proves' the quotient non-negative and emits plain C `/` where exo_floor_div is needed"))
         if len(divs) < 2:
             raise AnalysisError("ALGID: expected the two bound divisions in IndexRange.__floordiv__")
+    if prop in ("C02", "C08", "C12", "C14", "C15"):
+        # [lo % c, hi % c] bounds x % c only when lo and hi lie in the SAME period of c (lo // c == hi // c).
+        # "narrower than c" is not enough: [2, 4] % 4 would give (2, 0); the inverted range enters the loop
+        # iterator environment and simplify drops a `% d` / folds a `/ d` on an index that can be negative
+        RA = "src/exo/rewrite/range_analysis.py"
+        c_ = ix.module(RA).cls("IndexRange")
+        md = c_.methods.get("__mod__") if c_ else None
+        if md is None:
+            raise AnalysisError("anchor vanished: IndexRange.__mod__")
+        res.analysed.append(f"{RA}:IndexRange.__mod__")
+        from ..index import parent as _parent
+
+        cpar = [a for a in md.params() if a != "self"]
+        cn = cpar[0] if cpar else "c"
+        precise = [k for k in md.body_nodes() if isinstance(k, ast.Return) and k.value is not None
+                   and any(isinstance(b, ast.BinOp) and isinstance(b.op, ast.Mod) and ast.unparse(b.left) in ("self.lo", "self.hi") for b in ast.walk(k.value))]
+        if not precise:
+            raise AnalysisError("anchor vanished: IndexRange.__mod__ no longer returns the precise range [lo % c, hi % c]")
+        for k in precise:
+            res.instances += 1
+            res.nontrivial += 1
+            tests = []
+            p_ = k
+            while p_ is not None and p_ is not md.node:
+                q_ = _parent(p_)
+                if isinstance(q_, ast.If) and any(p_ is s_ for s_ in q_.body):
+                    tests.append(q_.test)
+                p_ = q_
+            conj = []
+            for t in tests:
+                conj += t.values if isinstance(t, ast.BoolOp) and isinstance(t.op, ast.And) else [t]
+            same_period = any(
+                isinstance(cj, ast.Compare) and len(cj.ops) == 1 and isinstance(cj.ops[0], ast.Eq)
+                and {ast.unparse(cj.left), ast.unparse(cj.comparators[0])} == {f"self.lo // {cn}", f"self.hi // {cn}"}
+                for cj in conj)
+            other_div = any(isinstance(b, ast.BinOp) and isinstance(b.op, ast.FloorDiv) for cj in conj for b in ast.walk(cj))
+            if not same_period and other_div:
+                raise AnalysisError(f"ALGID: IndexRange.__mod__ guards its precise range with an unrecognised period test `{' and '.join(ast.unparse(c)[:40] for c in conj)}`")
+            res.ob(same_period)
+            res.sample(f"IndexRange.__mod__: precise range [lo % {cn}, hi % {cn}] only when lo // {cn} == hi // {cn}: {same_period}")
+            if not same_period:
+                res.add(Finding("ALGID", RA, k.lineno, "IndexRange.__mod__", "range:mod-same-period",
+                                f"`{ast.unparse(k)[:70]}` is returned under `{' and '.join(ast.unparse(c)[:40] for c in conj)[:160]}`, which does not establish that lo and hi lie in the same period "
+                                f"of {cn} (lo // {cn} == hi // {cn}): [2, 4] % 4 becomes (2, 0), the bogus bound of a loop's lower limit lets simplify drop `% 8` / fold `/ 8` to 0 on an index that can be negative"))
     if prop == "C12":
         f = ix.func("src/exo/rewrite/LoopIR_scheduling.py", "DoSimplify.cfold")
         res.instances += 1
